@@ -159,6 +159,67 @@ impl Faults {
                 }
             }
         }
+        // later operations must not damage files that were not involved: create G, re-issue the failed call,
+        // create H, and G must still hold what was written to it
+        if !w.dead && !matches!(last, Op::List { .. } | Op::Find { .. } | Op::Read { .. } | Op::SeekStart { .. }) {
+            let vm = &w.vm;
+            let dh = w.dirs.iter().flatten().next().cloned();
+            let free_slot = w.files.iter().position(|x| x.is_none());
+            if let (Some(dh), Some(_)) = (dh, free_slot) {
+                let gdata: Vec<u8> = (0..700u32).map(|i| (i * 7 + 3) as u8).collect();
+                let hdata: Vec<u8> = (0..700u32).map(|i| (i * 13 + 5) as u8).collect();
+                let last2 = *last;
+                let dirs2 = w.dirs;
+                let r = catch_quiet(|| -> Result<Option<Vec<u8>>, String> {
+                    let put = |name: &str, data: &[u8]| -> Result<(), String> {
+                        let f = vm.open_file_in_dir(dh, name, embedded_sdmmc::Mode::ReadWriteCreateOrTruncate).map_err(|e| format!("create {}: {:?}", name, map_err(&e)))?;
+                        let r = vm.write(f, data).map_err(|e| format!("write {}: {:?}", name, map_err(&e)));
+                        vm.close_file(f).map_err(|e| format!("close {}: {:?}", name, map_err(&e)))?;
+                        r
+                    };
+                    put("GGG.TMP", &gdata)?;
+                    // re-issue the failed call
+                    match last2 {
+                        Op::Delete { d, name } => {
+                            if let Some(h) = dirs2[d as usize] {
+                                let _ = vm.delete_file_in_dir(h, NAMES[name as usize]);
+                            }
+                        }
+                        Op::Open { d, name, mode, .. } => {
+                            if let Some(h) = dirs2[d as usize] {
+                                if let Ok(f) = vm.open_file_in_dir(h, NAMES[name as usize], MODES[mode as usize]) {
+                                    let _ = vm.close_file(f);
+                                }
+                            }
+                        }
+                        Op::Mkdir { d, name } => {
+                            if let Some(h) = dirs2[d as usize] {
+                                let _ = vm.make_dir_in_dir(h, NAMES[name as usize]);
+                            }
+                        }
+                        _ => {}
+                    }
+                    put("HHH.TMP", &hdata)?;
+                    let f = vm.open_file_in_dir(dh, "GGG.TMP", embedded_sdmmc::Mode::ReadOnly).map_err(|e| format!("reopen G: {:?}", map_err(&e)))?;
+                    let mut buf = vec![0u8; 800];
+                    let n = vm.read(f, &mut buf).map_err(|e| format!("read G: {:?}", map_err(&e)))?;
+                    buf.truncate(n);
+                    let _ = vm.close_file(f);
+                    Ok(Some(buf))
+                });
+                match r {
+                    Caught::Ok(Ok(Some(buf))) if buf == gdata => {}
+                    Caught::Ok(Ok(Some(buf))) => out.push(viol("C11", format!("later-file-damaged@{}/{}", last.kind(), tag), format!("after failed {}: a file created afterwards (700 bytes) read back {} bytes that differ, after the failed call was re-issued and another file written", what, buf.len()), sc, hist)),
+                    Caught::Ok(Ok(None)) => {}
+                    // running out of space or directory slots here is not the property's concern
+                    Caught::Ok(Err(_)) => {}
+                    Caught::Panic(m) => out.push(viol("C11", format!("panic-after-fault@{}/{}", last.kind(), tag), format!("after failed {}: {}", what, m), sc, hist)),
+                }
+                // clean up so that the handle check below sees the same open set
+                let _ = vm.delete_file_in_dir(dh, "GGG.TMP");
+                let _ = vm.delete_file_in_dir(dh, "HHH.TMP");
+            }
+        }
         // every handle can still be used and closed, and the tables drain
         if w.dead {
             return;
